@@ -231,7 +231,7 @@ def run_case(desc):
         drv.start()
     try:
         d2 = dict(desc, max_errors=None) if mode == "failb" else desc
-        R = plainrun.execute(d2, pre=pre, record_args=False, track_results=True, ir=ir, before_run=lambda R_: holder.__setitem__("R", R_),
+        R = plainrun.execute(d2, pre=pre, record_args=False, track_results=True, ir=ir, before_run=lambda R_: holder.__setitem__("R", R_), hang_watch=drv is None,
                              progress=obs.progress() if obs else None)
     finally:
         if drv is not None:
